@@ -40,6 +40,11 @@ def run(prog, R, tier="quick", only_rule=None):
     # memtables by id)
     from rules.props import c06
     c06.c06j(prog, R, rid="C15.f")
+    # "leaves every snapshot taken before it untouched": drop_range trims nothing (watermark 0), it cannot know the open snapshots
+    c02.c02i(prog, R, rid="C15.g")
+    # "never changes the result for keys outside R": dropping tables keeps the order of the remaining runs
+    from rules.props import c07
+    c07.c07a(prog, R, rid="C15.h")
 
 
 def c15a(prog, R):
